@@ -73,8 +73,13 @@ def run(rep, pid, thorough):
             cfg('multi-three-sync-end', MaxSteps=3 if thorough else 2, MaxPerSrc=2, Cuts='TRUE', SyncSetName='"ends"', InstSetName='"three"'),
             cfg('multi-two-downstream-cut', MaxSteps=5 if thorough else 4, MaxPerSrc=3, TailSetName='"cuts"'),
             cfg('multi-zip3-deep', MaxSteps=8 if thorough else 7, MaxPerSrc=3, InstSetName='"zip3"'),
+            # the higher arities of the typed families (4-6 sources): random behaviours (TLC -simulate), each arity is its own copy of the code
+            cfg('multi-high-arities', MaxSteps=12, MaxPerSrc=2, InstSetName='"high"') + (dict(simulate='num=%d' % (3000 if thorough else 800), depth=14, workers=2),),
             cfg('multi-three', MaxSteps=5 if thorough else 4, MaxPerSrc=2, InstSetName='"three"')]
     pp.run(rep, pid, cfgs, modes='ctl-unsafe,ctl-safe', module='MultiGen', replay_cmd='replay-multi', class_props=CLASS_PROPS, prefix='multi.')
+    # one odd source among 2..6 (every arity of the typed families is its own copy of the code): cases built from parameters, MultiOdd.tla
+    odd = ('multi-odd-source', 'SPECIFICATION Spec\nCONSTANTS\n InstSetName = "all"\nINVARIANTS EmitCase\n')
+    pp.run(rep, pid, [odd], modes='ctl-unsafe,ctl-safe' if thorough else 'ctl-unsafe', module='MultiOddGen', replay_cmd='replay-multi', class_props=CLASS_PROPS, prefix='multi.')
 
 
 def replay_case(pid, path):
